@@ -227,6 +227,8 @@ func dumpElems(es []*gpmf.Element) string {
 	return b.String()
 }
 
+var gmSharedReader = gpmf.NewReader()
+
 func gmRead(data []byte) string {
 	ch := make(chan string, 1)
 	go func() {
@@ -235,7 +237,11 @@ func gmRead(data []byte) string {
 			var err error
 			rd, done := readerFor(data, true)
 			defer done()
-			es, err = gpmf.NewReader().Read(rd)
+			re := gpmf.NewReader()
+			if caseHash(string(data))&4 == 0 {
+				re = gmSharedReader // (a reader carries nothing from one payload to the next)
+			}
+			es, err = re.Read(rd)
 			return err
 		})
 		if cls == "ok" {
